@@ -1,4 +1,5 @@
 import OcppProps.CDSim
+import OcppProps.C07Fine
 import OcppModel.ServerSpec
 import OcppModel.Expected
 import OcppGen.Skeletons
@@ -61,6 +62,23 @@ theorem C02_server_partial :
     (SD.step (SD.init 0) .start).1.running = true ∧ evs.length = 9 := by decide
 
 /-! ### T2/T3 ties: the functions the dispatcher models were written from -/
+/-! ## below quiescence (client dispatcher), every interleaving of pump, reader, senders and link — proofs in
+`OcppProps/C07Fine.lean` (small-step model `Ocpp.ClientFine` of the repaired signalling protocol) -/
+
+/-- no CALL is written twice -/
+theorem fine_written_once (ls : List Ocpp.ClientFine.Label) (s' : Ocpp.ClientFine.St) (h : Ocpp.ClientFine.runL {} ls = some s') : s'.wire.Nodup :=
+  C07Fine.written_once ls s' h
+
+/-- a CALL that was written and is still queued is the pending one: nothing else is dispatched until it is concluded -/
+theorem fine_written_and_queued_is_pending (ls : List Ocpp.ClientFine.Label) (s' : Ocpp.ClientFine.St) (h : Ocpp.ClientFine.runL {} ls = some s') (id : Nat)
+    (hw : id ∈ s'.wire) (hq : id ∈ s'.q) : s'.pend = some id :=
+  C07Fine.written_and_queued_is_pending ls s' h id hw hq
+
+/-- the pending request is the head of the queue: dispatch order = acceptance order -/
+theorem fine_pending_is_head (ls : List Ocpp.ClientFine.Label) (s' : Ocpp.ClientFine.St) (h : Ocpp.ClientFine.runL {} ls = some s') (p : Nat) (hp : s'.pend = some p) :
+    s'.q.head? = some p :=
+  C07Fine.pending_is_head ls s' h p hp
+
 theorem skel_cdStart : Gen.Skeletons.cdStart = Ocpp.Expected.cdStart := by decide
 theorem skel_cdStop : Gen.Skeletons.cdStop = Ocpp.Expected.cdStop := by decide
 theorem skel_cdSendRequest : Gen.Skeletons.cdSendRequest = Ocpp.Expected.cdSendRequest := by decide
